@@ -123,6 +123,7 @@ class HampelFilter(_SeriesToSeriesTransformer):
 
 
 def _hampel_filter(Z, cv, n_sigma, half_window_length, k):
+    Z = Z.copy()  # outliers are replaced below: never in the caller's series
     for i in cv.split(Z):
         cv_window = i[0]
         cv_median = np.nanmedian(Z.iloc[cv_window])
